@@ -102,7 +102,7 @@ func famHref(fam string, i int, slash bool, form string) string {
 }
 
 var hrefForms = []string{"abs", "root", "rel"}
-var pagerSeps = []string{" ", " | ", "</li><li>"}
+var pagerSeps = []string{" ", " | ", "</li><li>", ", ", "; ", " - "}
 
 type pagerSpec struct {
 	Fam      string
@@ -110,7 +110,7 @@ type pagerSpec struct {
 	Form     string
 	Slash    bool
 	Sep      int
-	Deco     int // 0 plain, 1 strong, 2 span.current
+	Deco     int // 0 plain, 1 strong, 2 span.current, 3 [k]
 	Wrap     int // 0 div, 1 nav, 2 p, 3 div.pagination>ul
 	Noise    bool
 	PrevNext bool
@@ -142,6 +142,8 @@ func conventionalPager(sp pagerSpec, r *RNG) *Pager {
 					parts = append(parts, fmt.Sprintf("%d", i))
 				case 1:
 					parts = append(parts, fmt.Sprintf("<strong>%d</strong>", i))
+				case 3:
+					parts = append(parts, fmt.Sprintf("[%d]", i))
 				default:
 					parts = append(parts, fmt.Sprintf(`<span class="current">%d</span>`, i))
 				}
@@ -202,6 +204,8 @@ var hostilePages = []string{
 	"http://example.com/story/alpha/", "http://example.com/story/alpha/page/3/", "http://user@example.com/story/alpha?page=2",
 	"http://EXAMPLE.com/story/alpha?id=77&page=5", "http://example.com:8080/story/alpha/page/2", "http://example.com/story/alpha?id=77&page=5",
 	"http://example.com/2011/05/17/story-2/", "http://example.com/story/alpha_p2.html",
+	"http://example.com/story", "http://example.com/story/", "http://example.com/st", "http://example.com/story/2b", "http://example.com/story/3-alpha",
+	"http://example.com/story/alpha/2.html", "http://example.com/story/alpha/page2.html", "http://example.com/story/b",
 }
 
 func hostileHref(r *RNG, n int, u *nurl.URL) string {
@@ -270,9 +274,11 @@ func hostileHref(r *RNG, n int, u *nurl.URL) string {
 	}
 }
 
+const nHostileFams = 22
+
 func famHostile(fam, n int, u *nurl.URL) string {
 	host := u.Host
-	switch fam % 9 {
+	switch fam % nHostileFams {
 	case 0:
 		return fmt.Sprintf("?page=%d", n)
 	case 1:
@@ -289,16 +295,73 @@ func famHostile(fam, n int, u *nurl.URL) string {
 		return fmt.Sprintf("/story/alpha?id=77&page=%d", n)
 	case 7:
 		return fmt.Sprintf("page/%d", n)
-	default:
+	case 8:
 		return fmt.Sprintf("/story/%d/alpha/%d", 2000+n, n)
+	// page number at the start of a path component, followed by a suffix
+	case 9:
+		return fmt.Sprintf("/ab/%db", n)
+	case 10:
+		return fmt.Sprintf("/story/%d-alpha", n)
+	case 11:
+		return fmt.Sprintf("/story/alpha/%d.html", n)
+	case 12:
+		return fmt.Sprintf("/story/%dory", n)
+	// whole families on hosts / schemes that must never be returned
+	case 13:
+		return fmt.Sprintf("http://not%s/story/alpha/page/%d", host, n)
+	case 14:
+		return fmt.Sprintf("http://ads.%s/story/alpha/page/%d", host, n)
+	case 15:
+		return fmt.Sprintf("http://%s.evil.example/story/alpha/page/%d", host, n)
+	case 16:
+		return fmt.Sprintf("ftp://%s/story/alpha/page/%d", host, n)
+	case 17:
+		return fmt.Sprintf("%s://%s:8443/story/alpha/page/%d", u.Scheme, u.Hostname(), n)
+	case 18:
+		return fmt.Sprintf("javascript:goto('/story/alpha/page/%d')", n)
+	case 19:
+		return fmt.Sprintf("//%s/story/alpha/page/%d", strings.ToUpper(host), n)
+	case 20:
+		return fmt.Sprintf("page%d.html", n)
+	default:
+		return fmt.Sprintf("/story/alpha/page/%d?ref=nav#top", n)
 	}
 }
+
+// class / id values that mix the word lists of the prev/next scorer
+var pagerWrapClasses = []string{"article-footer", "post-meta", "content-sidebar", "pagination", "pager", "page-nav", "comment-list", "related-posts", "story-tools", "widget", "footer", "main-content", "entry-meta", "blog-footer nav", "paging", "nav", "pages", "sidebar", "body-and-footer", "text-widget", "masthead", "", ""}
 
 // genPager produces a random pager; hostile mixes in dangerous hrefs, gaps,
 // duplicates, descending runs and calendar-like numbers.
 func genPager(r *RNG, hostile bool) *Pager {
 	pu := hostilePages[r.Intn(len(hostilePages))]
 	u := mustURL(pu)
+	fam0, k0 := r.Intn(nHostileFams), 1+r.Intn(6)
+	if hostile {
+		// correlate the page URL with the link family of the first group: the
+		// page itself (page k of the family) or the "folder" the family lives in
+		base := mustURL("http://example.com/story/alpha")
+		if ref, err := nurl.Parse(famHostile(fam0, k0, base)); err == nil {
+			abs := base.ResolveReference(ref)
+			if (abs.Scheme == "http" || abs.Scheme == "https") && abs.Host != "" {
+				switch r.Intn(10) {
+				case 0, 1, 2:
+					pu = abs.String()
+				case 3, 4, 5:
+					abs.RawQuery, abs.Fragment = "", ""
+					p := strings.TrimSuffix(abs.Path, "/")
+					if i := strings.LastIndex(p, "/"); i > 0 {
+						abs.Path = p[:i]
+						if r.Intn(3) == 0 {
+							abs.Path += "/"
+						}
+						pu = abs.String()
+					}
+				}
+				u = mustURL(pu)
+			}
+		}
+	}
 	var sb strings.Builder
 	sb.WriteString(`<html><head><title>T</title></head><body><p>` + fillerWords(r, 40+r.Intn(60)) + `</p>`)
 	ngroups := 1
@@ -306,10 +369,32 @@ func genPager(r *RNG, hostile bool) *Pager {
 		ngroups = 2
 	}
 	for gi := 0; gi < ngroups; gi++ {
+		nwrap := 0
+		if hostile {
+			nwrap = r.Intn(4)
+		}
+		for w := 0; w < nwrap; w++ {
+			cls := pagerWrapClasses[r.Intn(len(pagerWrapClasses))]
+			if r.Intn(2) == 0 {
+				fmt.Fprintf(&sb, `<div class="%s">`, cls)
+			} else {
+				fmt.Fprintf(&sb, `<div id="%s" class="%s">`, cls, pagerWrapClasses[r.Intn(len(pagerWrapClasses))])
+			}
+		}
 		sb.WriteString(`<div class="pagination">`)
 		N := 2 + r.Intn(9)
 		k := 1 + r.Intn(N)
 		fam := r.Intn(9)
+		if hostile {
+			fam = r.Intn(nHostileFams)
+			if gi == 0 && r.Intn(4) != 0 {
+				fam = fam0
+				if r.Intn(2) == 0 && k0 <= N {
+					k = k0
+				}
+			}
+		}
+		firstElsewhere := hostile && r.Intn(5) == 0
 		var nums []int
 		for i := 1; i <= N; i++ {
 			nums = append(nums, i)
@@ -355,6 +440,9 @@ func genPager(r *RNG, hostile bool) *Pager {
 			} else {
 				h = famHostile(fam, i, u)
 			}
+			if i == 1 && firstElsewhere {
+				h = "/index/start.html"
+			}
 			label := fmt.Sprintf("%d", i)
 			if hostile && r.Intn(12) == 0 {
 				label = []string{"<b>" + label + "</b>", label + ".", "[" + label + "]", "Page " + label, "&nbsp;" + label + "&nbsp;"}[r.Intn(5)]
@@ -373,6 +461,9 @@ func genPager(r *RNG, hostile bool) *Pager {
 			fmt.Fprintf(&sb, `<a href="%s" class="%s">%s</a> <a href="%s" rel="prev">%s</a>`, hn, []string{"next", "btn", "nav-next pager"}[r.Intn(3)], nextLabels[li], hp, prevLabels[li])
 		}
 		sb.WriteString(`</div>`)
+		for w := 0; w < nwrap; w++ {
+			sb.WriteString(`</div>`)
+		}
 		if gi == 0 && ngroups == 2 {
 			sb.WriteString(`<p>` + fillerWords(r, 30) + `</p>`)
 		}
